@@ -12,13 +12,14 @@ import (
 	"github.com/moorara/algo/grammar"
 
 	"verifharness/gx"
+	"verifharness/hx"
 )
 
 // Ops are the seven public transformations (op names of the line protocol).
 var Ops = []string{"emptyfree", "singlefree", "unreachable", "cycles", "leftrec", "leftfactor", "cnf"}
 
 // StepOps are the three unexported steps of ChomskyNormalForm, reached through grammar/cfg_verif.go.
-var StepOps = []string{"start", "term", "bin"}
+var StepOps = []string{"cnfstart", "cnfterm", "cnfbin"}
 
 func IsOp(s string) bool {
 	for _, o := range Ops {
@@ -66,11 +67,11 @@ func Apply(op string, c *grammar.CFG) (out *grammar.CFG, kind, msg string) {
 		out = c.LeftFactor()
 	case "cnf":
 		out = c.ChomskyNormalForm()
-	case "start":
+	case "cnfstart":
 		out = grammar.VerifEliminateStartSymbolFromRight(c)
-	case "term":
+	case "cnfterm":
 		out = grammar.VerifEliminateNonSolitaryTerminals(c)
-	case "bin":
+	case "cnfbin":
 		out = grammar.VerifEliminateNonBinaryProductions(c)
 	default:
 		panic("unknown op " + op)
@@ -359,9 +360,41 @@ func LooseCNF(g gx.G) bool {
 	return true
 }
 
+// langCache memoises gx.LangK per (grammar, k): a grammar is used by ten cases in a row (one per
+// transformation) and results often equal their input.
+var langCache = map[string]map[string]bool{}
+
+// LangOf is gx.LangK with a small memo.
+func LangOf(g gx.G, k int) map[string]bool {
+	key := fmt.Sprintf("%d|%s", k, g.Show())
+	if l, ok := langCache[key]; ok {
+		return l
+	}
+	if len(langCache) > 256 {
+		langCache = map[string]map[string]bool{}
+	}
+	l := g.LangK(k)
+	langCache[key] = l
+	return l
+}
+
+// BoundFor picks the length bound of the language comparison for input grammar g: 6, lowered to 5 or 4
+// for grammars whose language is so dense (more than 60 / 200 sentences of length <= 4) that the
+// fixpoint enumeration up to 6 would dominate the run.
+func BoundFor(g gx.G) int {
+	switch n := len(LangOf(g, 4)); {
+	case n <= 60:
+		return 6
+	case n <= 200:
+		return 5
+	default:
+		return 4
+	}
+}
+
 // SameLang compares the sentences of length ≤ k; on a difference it names one sentence.
 func SameLang(a, b gx.G, k int) (bool, string) {
-	la, lb := a.LangK(k), b.LangK(k)
+	la, lb := LangOf(a, k), LangOf(b, k)
 	var lost, gained []string
 	for w := range la {
 		if !lb[w] {
@@ -376,7 +409,9 @@ func SameLang(a, b gx.G, k int) (bool, string) {
 	if len(lost)+len(gained) == 0 {
 		return true, ""
 	}
-	sort.Slice(lost, func(i, j int) bool { return len(lost[i]) < len(lost[j]) || len(lost[i]) == len(lost[j]) && lost[i] < lost[j] })
+	sort.Slice(lost, func(i, j int) bool {
+		return len(lost[i]) < len(lost[j]) || len(lost[i]) == len(lost[j]) && lost[i] < lost[j]
+	})
 	sort.Slice(gained, func(i, j int) bool {
 		return len(gained[i]) < len(gained[j]) || len(gained[i]) == len(gained[j]) && gained[i] < gained[j]
 	})
@@ -397,4 +432,33 @@ func SameLang(a, b gx.G, k int) (bool, string) {
 		msg += fmt.Sprintf("%d sentence(s) gained, e.g. %q", len(gained), q(gained[0]))
 	}
 	return false, msg
+}
+
+// ---------------------------------------------------------------- bookkeeping
+
+// SigLimiter runs cases through hx.Run.Do. hx records at most 20 violations per run; inadmissible steps that
+// carry a known-finding signature would fill that list and crowd out any other violation. After three
+// recorded instances of one (component, signature) further instances are only counted in the histogram
+// (tag "repeat:<signature>"); steps without a signature are never touched.
+type SigLimiter struct {
+	n map[string]int
+}
+
+func (s *SigLimiter) Do(run *hx.Run, comp string, c hx.Case, exec hx.Exec) hx.Result {
+	if s.n == nil {
+		s.n = map[string]int{}
+	}
+	wrapped := func(c hx.Case) hx.Result {
+		r := exec(c)
+		if r.BadOp >= 0 && r.Sig != "" && s.n[comp+"/"+r.Sig] >= 3 {
+			r.Tags = append(r.Tags, "repeat:"+r.Sig)
+			r.BadOp, r.What = -1, ""
+		}
+		return r
+	}
+	r := run.Do(comp, c, wrapped)
+	if r.BadOp >= 0 && r.Sig != "" {
+		s.n[comp+"/"+r.Sig]++
+	}
+	return r
 }
